@@ -132,6 +132,8 @@ def check_ret(run, cx, cfg, key, fn, body, paths):
         op = 'add_amp' if name == 'AddAmp' else 'mul_amp'
         if not p or not frame_app(op)(p['ret']) or list(p['ret'][2]) != [pulled(p, 'a'), pulled(p, 'b')]:
             bad = 'must return Frame::%s(a.next(), b.next())' % op
+        elif not pulled(p, 'a')[1] < pulled(p, 'b')[1]:
+            bad = 'must pull `a` before `b` (the order of the two next() calls is observable when the sources share state)'
     elif name in ('ScaleAmp', 'ScaleAmpPerChannel', 'OffsetAmp', 'OffsetAmpPerChannel'):
         op, param = {'ScaleAmp': ('scale_amp', 'amp'), 'ScaleAmpPerChannel': ('mul_amp', 'amp_frame'),
                      'OffsetAmp': ('offset_amp', 'offset'), 'OffsetAmpPerChannel': ('add_amp', 'amp_frame')}[name]
@@ -156,6 +158,9 @@ def check_ret(run, cx, cfg, key, fn, body, paths):
             ok = is_call(e, 'core::ops::function::FnMut', 'call_mut') and e['args'] == [('ref', self_loc(F('map'))), ('agg', ('tuple',), (pulled(p, 'this'), pulled(p, 'other')))]
         if not ok:
             bad = 'must return map(this.next(), other.next())'
+        elif not pulled(p, 'this')[1] < pulled(p, 'other')[1]:
+            # both sources are user code: which one runs first is observable when they share state (two ends of one stream)
+            bad = 'must pull `this` before `other` (the order of the two next() calls is observable when the sources share state)'
     elif name == 'Inspect':
         p = single()
         ok = False
